@@ -533,3 +533,19 @@ Proof.
       apply HEc in Hr. rewrite Hr. simpl. apply negb_true_iff, not_true_is_false.
       intros Ht. apply HRbc in Ht as (l & Hl & Hnin). apply Hnin, Hd, Hl.
 Qed.
+
+(* the recover region of the reference: blocks reachable from the recover block *)
+Lemma cfg_dominance_R : forall g rec d, cfg_dominance g rec = Some d ->
+  forall rc, rec = Some rc -> forall c, N.testbit (cd_R d) c = true <-> reachable g rc c.
+Proof.
+  unfold cfg_dominance; intros g rec d H rc -> c.
+  destruct (graph_ok g && (0 <? nnodes g)) eqn:Hok; [|discriminate]. simpl in H.
+  apply andb_true_iff in Hok as [Hok Hn].
+  destruct (reach_all g 0) as [E|] eqn:HE; [|discriminate].
+  destruct ((rc <? nnodes g) && negb (N.testbit E rc)) eqn:C; [|discriminate].
+  destruct (reach_all g rc) as [R|] eqn:HR; [|discriminate].
+  destruct (N.lor E R =? N.ones (nnodes g)); [|discriminate]. simpl in H.
+  destruct (opt_map _ _); [|discriminate]. injection H as <-. simpl.
+  apply andb_true_iff in C as [C1 _]. apply N.ltb_lt in C1.
+  now apply (reach_all_correct g rc R Hok C1 HR).
+Qed.
